@@ -113,7 +113,29 @@ def spectrum_case(draw, tier):
             "valueunit": draw(st.sampled_from([None, "photlam", "flam", "wlam"])),
             "path": [draw(st.sampled_from(["m", "um", "nm", "angstrom", "photlam", "flam", "wlam"]))
                      for _ in range(draw(st.integers(1, 4)))],
-            "two_arg": draw(st.booleans())}
+            "two_arg": draw(st.booleans()),
+            # the object converted: a plain Spectrum, a copy() of one, or one of the Spectrum subclasses
+            "cls": draw(st.sampled_from(["Spectrum", "Spectrum", "Spectrum", "copy", "Blackbody", "vegamag"])),
+            "temp_factor": draw(gen.finite(1.0, 4.0)), "mag": draw(gen.finite(-2.0, 12.0)),
+            "band": draw(st.sampled_from(["U", "B", "V", "R", "I", "J", "H", "K"]))}
+
+
+def make_spectrum(case, wave, value, u, vu):
+    with np.errstate(all="ignore"):
+        return _make_spectrum(case, wave, value, u, vu)
+
+
+def _make_spectrum(case, wave, value, u, vu):
+    cls = case.get("cls", "Spectrum")
+    if cls in ("Blackbody", "vegamag") and vu is not None:
+        # temperature high enough for the Planck exponent to stay well inside the float range
+        temp = 0.0144 / (case["wave_m"][0] * 40.0) * case["temp_factor"]
+        if cls == "Blackbody":
+            return rad.Blackbody(wave.copy(), temp, waveunit=u, valueunit=vu)
+        if vu == "photlam":
+            return rad.Blackbody.vegamag(wave.copy(), temp, case["mag"], case["band"], waveunit=u)
+    s = Spectrum(wave.copy(), value.copy(), waveunit=u, valueunit=vu)
+    return s.copy() if cls == "copy" else s
 
 
 def trapz(y, x):
@@ -129,8 +151,13 @@ def spectrum_to(case, ctx):
     f = SI["m"] / SI[u]
     wave = case["wave_m"] * f
     value = case["value"] / f if vu else case["value"]
-    s = Spectrum(wave.copy(), value.copy(), waveunit=u, valueunit=vu)
-    ctx.tag("valueunit:" + str(vu), "start:" + u, f"path_len:{len(case['path'])}")
+    with lentil_call("C14.spectrum.make", f"{case.get('cls', 'Spectrum')} in ({u}, {vu})"):
+        s = make_spectrum(case, wave, value, u, vu)
+    value = np.asarray(s.value, dtype=float).copy()
+    if not np.all(np.isfinite(value)) or not np.any(value):
+        raise Skip("degenerate_blackbody_values")
+    ctx.tag("valueunit:" + str(vu), "start:" + u, f"path_len:{len(case['path'])}", "object:" + type(s).__name__ +
+            ("(vegamag)" if hasattr(s, "band") else "(copy)" if case.get("cls") == "copy" else ""))
     ctx.nontrivial_if(any(p != u and p != vu for p in case["path"]))
     w0_m = np.asarray(s.wave) * SI[s.waveunit]
     integ0 = trapz(np.asarray(s.value), np.asarray(s.wave))
@@ -186,8 +213,8 @@ def spectrum_to(case, ctx):
     if vu is not None:
         t_w = [p for p in case["path"] if p in SI][-1:] or ["um"]
         t_f = [p for p in case["path"] if p in FNAMES][-1:] or ["wlam"]
-        s1 = Spectrum(wave.copy(), value.copy(), waveunit=u, valueunit=vu)
-        s2 = Spectrum(wave.copy(), value.copy(), waveunit=u, valueunit=vu)
+        s1 = make_spectrum(case, wave, value, u, vu)
+        s2 = make_spectrum(case, wave, value, u, vu)
         with lentil_call("C14.spectrum.two_arg", f"to({t_w[0]}, {t_f[0]})"):
             s1.to(t_w[0], t_f[0])
             s2.to(t_w[0])
